@@ -15,6 +15,14 @@
 //! transport, so the hand-off of the upgraded connection and the byte pipe
 //! are observed on each.
 //!
+//! A third slice speaks HTTP/2 (hyper's http2 client: cleartext with prior
+//! knowledge to the plain server, and ALPN h2 to the TLS servers): several
+//! streams per connection carrying every combination of the websocket
+//! elements HTTP/2 lets a client send.  Connection and Upgrade cannot be
+//! among them, so every such request lacks two elements and must get a 4xx
+//! final response, the handler must stay out and the connection must go on
+//! serving.
+//!
 //! Nothing about SHA-1 or base64 is computed here: the Sec-WebSocket-Accept
 //! bytes are reported as received and the Coq judge compares them with the
 //! Gallina SHA-1 + base64 of the key that was sent.
@@ -80,6 +88,19 @@ struct Case {
     pipelined: bool,
     /// over TLS (the server started with ConfigTls) instead of plain TCP
     tls: bool,
+    /// not empty: an HTTP/2 connection carrying these requests to /ws (one
+    /// stream each) instead of the HTTP/1.1 scenario; `headers`, `pieces`,
+    /// `pipelined` are then unused
+    h2: Vec<H2Req>,
+    /// the streams are opened at once (else one after the other)
+    h2_concurrent: bool,
+}
+
+#[derive(Clone, Debug)]
+struct H2Req {
+    headers: Vec<(Vec<u8>, Vec<u8>)>,
+    /// length of the request body (0: none)
+    body: usize,
 }
 
 impl Case {
@@ -90,6 +111,10 @@ impl Case {
             "pieces": self.pieces,
             "pipelined": self.pipelined,
             "tls": self.tls,
+            "h2": self.h2.iter().map(|q| json!({
+                "headers": q.headers.iter().map(|(n, v)| json!([lat1(n), lat1(v)])).collect::<Vec<_>>(),
+                "body": q.body})).collect::<Vec<_>>(),
+            "h2_concurrent": self.h2_concurrent,
         })
     }
     fn from_json(v: &Value) -> Case {
@@ -109,6 +134,26 @@ impl Case {
                 .unwrap_or_default(),
             pipelined: v.get("pipelined").and_then(|x| x.as_bool()).unwrap_or(false),
             tls: v.get("tls").and_then(|x| x.as_bool()).unwrap_or(false),
+            h2: v
+                .get("h2")
+                .and_then(|x| x.as_array())
+                .map(|a| {
+                    a.iter()
+                        .map(|q| H2Req {
+                            headers: q["headers"]
+                                .as_array()
+                                .map(|hs| {
+                                    hs.iter()
+                                        .map(|h| (unlat1(h[0].as_str().unwrap_or("")), unlat1(h[1].as_str().unwrap_or(""))))
+                                        .collect()
+                                })
+                                .unwrap_or_default(),
+                            body: q.get("body").and_then(|b| b.as_u64()).unwrap_or(0) as usize,
+                        })
+                        .collect()
+                })
+                .unwrap_or_default(),
+            h2_concurrent: v.get("h2_concurrent").and_then(|x| x.as_bool()).unwrap_or(false),
         }
     }
     fn payload(&self) -> Vec<Vec<u8>> {
@@ -134,6 +179,19 @@ enum Obs {
     Status { code: u16, followup: u8, entered: u64 },
     /// no parseable response (0 closed, 1 timeout, 2 malformed, 3 i/o error)
     Broken(u8),
+    /// HTTP/2 connection: per stream the final status, or why there is none;
+    /// whether an ordinary request was answered on the connection afterwards;
+    /// counter movement over the whole connection
+    H2 { streams: Vec<H2Res>, usable: bool, entered: u64 },
+}
+
+enum H2Res {
+    Status(u16),
+    /// no final response within the timeout
+    NoFinal,
+    /// the stream or the connection failed (1), the connection could not be
+    /// made (2), the request could not be built (3)
+    Error(u8),
 }
 
 const PING: &[u8] = b"GET /ping HTTP/1.1\r\nHost: localhost\r\n\r\n";
@@ -482,6 +540,113 @@ async fn run_case_tls(addr: SocketAddr, ctx: &Ctx, c: &Case) -> Obs {
     Obs::Switched { headers, echo: echo_of(pieces, received, eof && write_ok), entered }
 }
 
+// ------------------------------------------------------------- HTTP/2 client
+
+type H2Sender = hyper::client::conn::http2::SendRequest<http_body_util::Full<bytes::Bytes>>;
+
+async fn h2_connect(addr: SocketAddr, tls: bool) -> Option<H2Sender> {
+    use hyper_util::rt::{TokioExecutor, TokioIo};
+    let tcp = tokio::time::timeout(Duration::from_secs(10), tokio::net::TcpStream::connect(addr)).await.ok()?.ok()?;
+    let _ = tcp.set_nodelay(true);
+    let builder = hyper::client::conn::http2::Builder::new(TokioExecutor::new());
+    if tls {
+        let mut cfg = rustls::ClientConfig::builder()
+            .dangerous()
+            .with_custom_certificate_verifier(Arc::new(noverify::NoVerify))
+            .with_no_client_auth();
+        cfg.alpn_protocols = vec![b"h2".to_vec()];
+        let connector = tokio_rustls::TlsConnector::from(Arc::new(cfg));
+        let name = rustls::pki_types::ServerName::try_from("localhost").ok()?;
+        let stream = tokio::time::timeout(Duration::from_secs(20), connector.connect(name, tcp)).await.ok()?.ok()?;
+        if stream.get_ref().1.alpn_protocol() != Some(b"h2") {
+            return None;
+        }
+        let (sender, conn) = builder.handshake(TokioIo::new(stream)).await.ok()?;
+        tokio::spawn(async move {
+            let _ = conn.await;
+        });
+        Some(sender)
+    } else {
+        // prior knowledge: the client preface on a cleartext connection
+        let (sender, conn) = builder.handshake(TokioIo::new(tcp)).await.ok()?;
+        tokio::spawn(async move {
+            let _ = conn.await;
+        });
+        Some(sender)
+    }
+}
+
+async fn h2_one(mut sender: H2Sender, tls: bool, path: &str, q: &H2Req, seed: u64) -> H2Res {
+    use http_body_util::BodyExt;
+    let mut b = hyper::Request::builder()
+        .method("GET")
+        .uri(format!("{}://localhost{}", if tls { "https" } else { "http" }, path));
+    for (n, v) in &q.headers {
+        let name = match http::header::HeaderName::from_bytes(n) {
+            Ok(x) => x,
+            Err(_) => return H2Res::Error(3),
+        };
+        let val = match http::header::HeaderValue::from_bytes(v) {
+            Ok(x) => x,
+            Err(_) => return H2Res::Error(3),
+        };
+        b = b.header(name, val);
+    }
+    let mut r = Rng::new(seed);
+    let body: Vec<u8> = (0..q.body).map(|_| (r.next() >> 24) as u8).collect();
+    let req = match b.body(http_body_util::Full::new(bytes::Bytes::from(body))) {
+        Ok(x) => x,
+        Err(_) => return H2Res::Error(3),
+    };
+    if sender.ready().await.is_err() {
+        return H2Res::Error(1);
+    }
+    match tokio::time::timeout(patience(Duration::from_secs(3)), sender.send_request(req)).await {
+        Err(_) => {
+            EXPIRED.fetch_add(1, Ordering::SeqCst);
+            H2Res::NoFinal
+        }
+        Ok(Err(_)) => H2Res::Error(1),
+        Ok(Ok(resp)) => {
+            let status = resp.status().as_u16();
+            let _ = tokio::time::timeout(patience(Duration::from_secs(3)), resp.into_body().collect()).await;
+            H2Res::Status(status)
+        }
+    }
+}
+
+async fn run_case_h2(addr: SocketAddr, ctx: &Ctx, c: &Case) -> Obs {
+    let before = ctx.entered.load(Ordering::SeqCst);
+    let sender = match h2_connect(addr, c.tls).await {
+        Some(s) => s,
+        None => {
+            return Obs::H2 { streams: c.h2.iter().map(|_| H2Res::Error(2)).collect(), usable: false, entered: 0 }
+        }
+    };
+    let streams: Vec<H2Res> = if c.h2_concurrent {
+        let futs: Vec<_> = c
+            .h2
+            .iter()
+            .enumerate()
+            .map(|(i, q)| h2_one(sender.clone(), c.tls, "/ws", q, c.pseed.wrapping_add(i as u64)))
+            .collect();
+        futures::future::join_all(futs).await
+    } else {
+        let mut v = vec![];
+        for (i, q) in c.h2.iter().enumerate() {
+            v.push(h2_one(sender.clone(), c.tls, "/ws", q, c.pseed.wrapping_add(i as u64)).await);
+        }
+        v
+    };
+    // an ordinary request on the same connection
+    let usable = matches!(
+        h2_one(sender.clone(), c.tls, "/ping", &H2Req { headers: vec![], body: 0 }, 0).await,
+        H2Res::Status(200)
+    );
+    let entered = settle(ctx, before, 0);
+    Obs::H2 { streams, usable, entered }
+}
+
 fn start_tls_server(api: ApiDescription<Arc<Ctx>>, ctx: Arc<Ctx>) -> HttpServer<Arc<Ctx>> {
     let mut config = ConfigDropshot::default();
     config.bind_address = "127.0.0.1:0".parse().unwrap();
@@ -598,6 +763,36 @@ fn g_hdr(n: &[u8], v: &[u8]) -> String {
 }
 
 fn emit_case(out: &mut dyn Write, group: &'static str, c: &Case, o: &Obs, tags: Vec<String>) {
+    if !c.h2.is_empty() {
+        let reqs = g_list(&c.h2, |q| format!("({},{})", g_list(&q.headers, |(n, v)| g_hdr(n, v)), q.body));
+        let (oj, oc) = match o {
+            Obs::H2 { streams, usable, entered } => {
+                let sj: Vec<Value> = streams
+                    .iter()
+                    .map(|r| match r {
+                        H2Res::Status(c) => json!(c),
+                        H2Res::NoFinal => json!("no-final-response"),
+                        H2Res::Error(k) => json!(format!("error{}", k)),
+                    })
+                    .collect();
+                let sc = g_list(streams, |r| match r {
+                    H2Res::Status(c) => format!("(H2Status {})", c),
+                    H2Res::NoFinal => "H2NoFinal".to_string(),
+                    H2Res::Error(k) => format!("(H2Error {})", k),
+                });
+                (
+                    json!({"streams": sj, "usable": usable, "entered": entered}),
+                    format!("{} {} {}", sc, g_bool(*usable), entered),
+                )
+            }
+            _ => (json!({"broken": true}), "[] false 0".to_string()),
+        };
+        emit(
+            out,
+            &Line { group, case: c.to_json(), obs: oj, coq: format!("(CH2 {} {})", reqs, oc), tags, nontrivial: true },
+        );
+        return;
+    }
     let wire = g_list(&c.headers, |(n, v)| g_hdr(n, v));
     let (obs_json, obs_coq) = match o {
         Obs::Switched { headers, echo, entered } => {
@@ -630,6 +825,7 @@ fn emit_case(out: &mut dyn Write, group: &'static str, c: &Case, o: &Obs, tags: 
             format!("(OStatus {} {} {})", code, followup, entered),
         ),
         Obs::Broken(k) => (json!({"broken": k}), format!("(OBroken {})", k)),
+        Obs::H2 { .. } => (json!({"broken": "h2 observation on an HTTP/1.1 case"}), "(OBroken 3)".to_string()),
     };
     let nontrivial = !c.headers.is_empty();
     emit(
@@ -650,6 +846,13 @@ fn obs_tag(o: &Obs) -> String {
         Obs::Switched { .. } => "obs:101".into(),
         Obs::Status { code, .. } => format!("obs:{}", code),
         Obs::Broken(k) => format!("obs:broken{}", k),
+        Obs::H2 { streams, .. } => {
+            if streams.iter().all(|r| matches!(r, H2Res::Status(400))) {
+                "obs:h2-all-400".into()
+            } else {
+                "obs:h2-other".into()
+            }
+        }
     }
 }
 
@@ -707,6 +910,8 @@ fn good(r: &mut Rng, key: Vec<u8>) -> Case {
         pieces,
         pipelined,
         tls: false,
+        h2: vec![],
+        h2_concurrent: false,
     }
 }
 
@@ -856,7 +1061,7 @@ fn gen_cases(o: &Opts) -> Vec<(&'static str, Case, Vec<String>)> {
                     let wrong = (ci != 0) as usize + (ui != 0) as usize + (vi != 0) as usize + (ki != 0) as usize;
                     v.push((
                         "subset-grid",
-                        Case { headers: hs, pseed, pieces, pipelined: false, tls: false },
+                        Case { headers: hs, pseed, pieces, pipelined: false, tls: false, h2: vec![], h2_concurrent: false },
                         vec![format!("wrong-elements:{}", wrong)],
                     ));
                 }
@@ -905,7 +1110,7 @@ fn gen_cases(o: &Opts) -> Vec<(&'static str, Case, Vec<String>)> {
         r.shuffle(&mut hs);
         tags.push(format!("spelling:{}", if lack_conn { "lacks-connection-token" } else if lack_upg { "lacks-upgrade-token" } else { "has-both" }));
         let (pseed, pieces, pipelined) = small_payload(&mut r);
-        v.push(("spelling", Case { headers: hs, pseed, pieces, pipelined, tls: false }, tags));
+        v.push(("spelling", Case { headers: hs, pseed, pieces, pipelined, tls: false, h2: vec![], h2_concurrent: false }, tags));
     }
     // fixed spellings worth having in every run
     let fixed: Vec<(&str, &str)> = vec![
@@ -939,7 +1144,7 @@ fn gen_cases(o: &Opts) -> Vec<(&'static str, Case, Vec<String>)> {
             hs[0].1 = b"Upgrade, \x80".to_vec();
         }
         let (pseed, pieces, pipelined) = small_payload(&mut r);
-        v.push(("spelling-fixed", Case { headers: hs, pseed, pieces, pipelined, tls: false }, vec!["spelling:fixed".into()]));
+        v.push(("spelling-fixed", Case { headers: hs, pseed, pieces, pipelined, tls: false, h2: vec![], h2_concurrent: false }, vec!["spelling:fixed".into()]));
     }
     // lists split over several lines
     for (lines, tag) in [
@@ -956,7 +1161,7 @@ fn gen_cases(o: &Opts) -> Vec<(&'static str, Case, Vec<String>)> {
         hs.push(h("Sec-WebSocket-Version", "13"));
         hs.push(h("Sec-WebSocket-Key", "x3JJHMbDL1EzLkh9GBhXDw=="));
         let (pseed, pieces, pipelined) = small_payload(&mut r);
-        v.push(("spelling-fixed", Case { headers: hs, pseed, pieces, pipelined, tls: false }, vec![format!("spelling:{}", tag)]));
+        v.push(("spelling-fixed", Case { headers: hs, pseed, pieces, pipelined, tls: false, h2: vec![], h2_concurrent: false }, vec![format!("spelling:{}", tag)]));
     }
     // repeated version / key lines (first one counts in the code)
     for (vers, keys) in [
@@ -975,7 +1180,7 @@ fn gen_cases(o: &Opts) -> Vec<(&'static str, Case, Vec<String>)> {
             hs.push(h("Sec-WebSocket-Key", x));
         }
         let (pseed, pieces, pipelined) = small_payload(&mut r);
-        v.push(("repeated-lines", Case { headers: hs, pseed, pieces, pipelined, tls: false }, vec!["repeated-version-or-key".into()]));
+        v.push(("repeated-lines", Case { headers: hs, pseed, pieces, pipelined, tls: false, h2: vec![], h2_concurrent: false }, vec!["repeated-version-or-key".into()]));
     }
 
     // --- payloads after the upgrade
@@ -1083,7 +1288,7 @@ fn gen_large(o: &Opts) -> Vec<(&'static str, Case, Vec<String>)> {
                     dim: &str,
                     n: usize| {
         let (pieces, pipelined) = pieces.unwrap_or_else(|| (vec![r.below(40), r.below(40)], false));
-        let c = Case { headers, pseed: r.next(), pieces, pipelined, tls };
+        let c = Case { headers, pseed: r.next(), pieces, pipelined, tls, h2: vec![], h2_concurrent: false };
         let mut tags = vec![format!("large:{}:{}", dim, n)];
         if tls {
             tags.push("transport:tls".into());
@@ -1249,6 +1454,114 @@ fn gen_large(o: &Opts) -> Vec<(&'static str, Case, Vec<String>)> {
     v
 }
 
+// ------------------------------------------------------------ the HTTP/2 slice
+
+/// Every combination of the websocket elements an HTTP/2 client can send
+/// (Connection and Upgrade are connection-specific fields, forbidden in
+/// HTTP/2 and removed by every client library), several streams per
+/// connection, on cleartext prior-knowledge h2 and on h2 over TLS.
+fn gen_h2(o: &Opts) -> Vec<(&'static str, Case, Vec<String>)> {
+    let mut r = Rng::new(o.seed ^ 0x42_68_32);
+    let long_key: Vec<u8> = big_key(&mut r, 8193); // periodic: a small Coq term
+    let versions: Vec<Option<&str>> = vec![Some("13"), Some("12"), Some("13, 8"), None];
+    let keys: Vec<(Option<Vec<u8>>, &str)> = vec![
+        (Some(K16.as_bytes().to_vec()), "present"),
+        (None, "absent"),
+        (Some(long_key.clone()), "long"),
+        (Some(vec![]), "empty"),
+    ];
+    let mut reqs: Vec<(H2Req, Vec<String>)> = vec![];
+    for ver in &versions {
+        for (key, kname) in &keys {
+            for proto in [false, true] {
+                for body in [0usize, 5, 70000] {
+                    if body == 70000 && !(proto && ver.is_some()) {
+                        continue;
+                    }
+                    let mut hs = vec![];
+                    if let Some(x) = ver {
+                        hs.push(h("sec-websocket-version", x));
+                    }
+                    if let Some(k) = key {
+                        hs.push((b"sec-websocket-key".to_vec(), k.clone()));
+                    }
+                    if proto {
+                        hs.push(h("sec-websocket-protocol", "chat, superchat"));
+                        hs.push(h("origin", "https://example.com"));
+                    }
+                    if r.chance(1, 2) {
+                        hs.reverse();
+                    }
+                    let tags = vec![
+                        format!("h2:version:{}", ver.unwrap_or("absent")),
+                        format!("h2:key:{}", kname),
+                        format!("h2:body:{}", body),
+                    ];
+                    reqs.push((H2Req { headers: hs, body }, tags));
+                }
+            }
+        }
+    }
+    if o.thorough {
+        // key lengths across the round numbers, random extra fields
+        for &n in ROUND_SMALL.iter().chain(ROUND_MID) {
+            let k = big_key(&mut r, n);
+            let mut hs = vec![h("sec-websocket-version", "13"), (b"sec-websocket-key".to_vec(), k)];
+            for i in 0..r.below(4) {
+                hs.push((format!("x-extra-{}", i).into_bytes(), b"upgrade, websocket".to_vec()));
+            }
+            reqs.push((H2Req { headers: hs, body: r.below(3) * 17 }, vec![format!("h2:key-length:{}", n)]));
+        }
+    }
+    let mut v = vec![];
+    let per = 8;
+    for tls in [false, true] {
+        let mut order: Vec<usize> = (0..reqs.len()).collect();
+        r.shuffle(&mut order);
+        for (ci, chunk) in order.chunks(per).enumerate() {
+            let concurrent = ci % 2 == 1;
+            let mut tags: Vec<String> = vec![
+                format!("h2:{}", if tls { "tls-alpn" } else { "cleartext-prior-knowledge" }),
+                format!("h2:streams:{}", if concurrent { "concurrent" } else { "sequential" }),
+            ];
+            if tls {
+                tags.push("transport:tls".into());
+            }
+            for &i in chunk {
+                tags.extend(reqs[i].1.iter().cloned());
+            }
+            tags.sort();
+            tags.dedup();
+            let c = Case {
+                headers: vec![],
+                pseed: r.next(),
+                pieces: vec![],
+                pipelined: false,
+                tls,
+                h2: chunk.iter().map(|&i| reqs[i].0.clone()).collect(),
+                h2_concurrent: concurrent,
+            };
+            v.push(("h2", c, tags));
+        }
+        // all of them at once on one connection
+        let c = Case {
+            headers: vec![],
+            pseed: r.next(),
+            pieces: vec![],
+            pipelined: false,
+            tls,
+            h2: reqs.iter().map(|(q, _)| q.clone()).collect(),
+            h2_concurrent: true,
+        };
+        let mut tags = vec![format!("h2:streams-at-once:{}", reqs.len())];
+        if tls {
+            tags.push("transport:tls".into());
+        }
+        v.push(("h2", c, tags));
+    }
+    v
+}
+
 /// The scenarios repeated over TLS: drawn from the same generator (another
 /// seed), every group represented — every key length once, the grid's
 /// no-/one-element-wrong corner and a stride through the rest, spellings,
@@ -1320,6 +1633,7 @@ fn main() {
             None => {
                 let mut v = gen_cases(opts);
                 v.extend(gen_cases_tls(opts));
+                v.extend(gen_h2(opts));
                 // the large-scope cases are dealt evenly among the others, so
                 // that the driver's contiguous Coq shards share their cost
                 let large = gen_large(opts);
@@ -1383,7 +1697,13 @@ fn main() {
                     let mut v = vec![];
                     for (i, (_, c, _)) in cases.iter().enumerate() {
                         if slot[i] == w {
-                            let o = catch(|| client_rt.block_on(run_case_tls(tls_addrs[w], &tls_ctxs[w], c)))
+                            let o = catch(|| {
+                                if c.h2.is_empty() {
+                                    client_rt.block_on(run_case_tls(tls_addrs[w], &tls_ctxs[w], c))
+                                } else {
+                                    client_rt.block_on(run_case_h2(tls_addrs[w], &tls_ctxs[w], c))
+                                }
+                            })
                                 .unwrap_or(Obs::Broken(3));
                             v.push((i, o));
                         }
@@ -1393,7 +1713,16 @@ fn main() {
             }
             for (i, (_, c, _)) in cases.iter().enumerate() {
                 if !c.tls {
-                    results[i] = Some(catch(|| run_case(addr, &ctx, c)).unwrap_or(Obs::Broken(3)));
+                    results[i] = Some(
+                        catch(|| {
+                            if c.h2.is_empty() {
+                                run_case(addr, &ctx, c)
+                            } else {
+                                client_rt.block_on(run_case_h2(addr, &ctx, c))
+                            }
+                        })
+                        .unwrap_or(Obs::Broken(3)),
+                    );
                 }
             }
             for w in workers {
